@@ -25,3 +25,117 @@ func Harness_C10_padding() {
 		}
 	}
 }
+
+// verifLengths: the plaintext lengths of the quick tier (boundaries) or every length 0..4*bs+1.
+func verifPlaintextLen(bs int) int {
+	if verifParam("lengths.all", 0) == 1 {
+		n := verifChoose("len", 4*bs+2)
+		return n
+	}
+	switch verifChoose("lenclass", 7) {
+	case 0:
+		return 0
+	case 1:
+		return 1
+	case 2:
+		return bs - 1
+	case 3:
+		return bs
+	case 4:
+		return bs + 1
+	case 5:
+		return 4 * bs
+	}
+	return 4*bs + 1
+}
+
+// Harness_C10_direct: for every block cipher and a key of the right size,
+// Decrypt(key, Encrypt(key, p)) == p, with supplied and library-generated nonces.
+func Harness_C10_direct() {
+	var drawn []byte
+	calls := 0
+	RandReader = verifRandReader{&drawn, &calls}
+	ci := verifChoose("cipher", len(verifBlockCiphers))
+	bc := verifBlockCiphers[ci]
+	n := verifPlaintextLen(verifBlockSize(ci))
+	p := verifNondetBytes("p", n)
+	key := verifNondetBytes("key", bc.KeySize())
+	var nonce []byte
+	if verifChoose("nonce", 2) == 1 {
+		nonce = verifNondetBytes("nonce", 12)
+	}
+	el, err := bc.Encrypt(key, append([]byte{}, p...), nonce)
+	if err != nil {
+		// only the random source may fail
+		verifAssert(calls > 0, "C10/direct/"+verifBlockCipherNames[ci]+"/encrypt-fails-only-on-random-source-failure")
+		verifReach("encrypt-failed")
+		return
+	}
+	verifReach("encrypted")
+	out, err := Decrypt(key, el)
+	verifAssert(err == nil, "C10/direct/"+verifBlockCipherNames[ci]+"/decrypts-own-ciphertext")
+	if err == nil {
+		verifReach("decrypted")
+		verifAssert(verifBytesEqual(out, p), "C10/direct/"+verifBlockCipherNames[ci]+"/roundtrip")
+	}
+}
+
+var verifTransportNames = []string{"oaep-sha1", "oaep-sha256", "oaep-sha512", "oaep-ripemd160", "oaep11-sha256", "oaep11-sha512", "pkcs1v15"}
+
+func verifTransport(i int) RSA {
+	switch i {
+	case 0:
+		e := OAEP()
+		e.DigestMethod = &SHA1
+		return e
+	case 1:
+		e := OAEP()
+		e.DigestMethod = &SHA256
+		return e
+	case 2:
+		e := OAEP()
+		e.DigestMethod = &SHA512
+		return e
+	case 3:
+		e := OAEP()
+		e.DigestMethod = &RIPEMD160
+		return e
+	case 4:
+		return OAEP_SHA256()
+	case 5:
+		return OAEP_SHA512()
+	}
+	return PKCS1v15()
+}
+
+// Harness_C10_transport: the same through every RSA key transport, to the
+// certificate of the key that decrypts.
+func Harness_C10_transport() {
+	var drawn []byte
+	calls := 0
+	RandReader = verifRandReader{&drawn, &calls}
+	ci := verifChoose("cipher", len(verifBlockCiphers))
+	ti := verifChoose("transport", len(verifTransportNames))
+	e := verifTransport(ti)
+	e.BlockCipher = verifBlockCiphers[ci]
+	n := verifPlaintextLen(verifBlockSize(ci))
+	p := verifNondetBytes("p", n)
+	var nonce []byte
+	if verifChoose("nonce", 2) == 1 {
+		nonce = verifNondetBytes("nonce", 12)
+	}
+	name := verifTransportNames[ti] + "+" + verifBlockCipherNames[ci]
+	el, err := e.Encrypt(verifTestCert(0, 0), append([]byte{}, p...), nonce)
+	if err != nil {
+		verifAssert(calls > 0, "C10/transport/"+name+"/encrypt-fails-only-on-random-source-failure")
+		verifReach("encrypt-failed")
+		return
+	}
+	verifReach("encrypted")
+	out, err := Decrypt(verifTestSigner(0, 0), el)
+	verifAssert(err == nil, "C10/transport/"+name+"/decrypts-own-ciphertext")
+	if err == nil {
+		verifReach("decrypted")
+		verifAssert(verifBytesEqual(out, p), "C10/transport/"+name+"/roundtrip")
+	}
+}
